@@ -68,6 +68,9 @@ def load(root):
                 if mm: names.append(mm.group(1))
                 if not re.match(r'^\w+(\s*=\s*-?\d+)?$', it): plain = False
             enums.setdefault(m.group(1), names)
+            stem = os.path.splitext(os.path.basename(p))[0]
+            if stem == 'mod': stem = os.path.basename(os.path.dirname(p))
+            enums[stem + '::' + m.group(1)] = names          # module-qualified (two enums may share a short name)
             if plain: FIELDLESS.add(m.group(1))
         for m in re.finditer(r'\bstruct\s+(\w+)\s*(?:<[^>{]*>)?\s*(?:where[^{]*)?\{', s):
             items = top_items(body_at(s, m.end() - 1))
